@@ -76,7 +76,7 @@ class MapState:
     """Slot exceptions of one container relative to INV at its current len."""
     __slots__ = ('len', 'cap', 'holes', 'extras', 'hole_rng', 'extra_rng', 'contents',
                  'exempt', 'dead', 'owned_extras', 'name', 'len0', 'examined', 'phantom',
-                 'entry_inv', 'borrowed', 'pending')
+                 'entry_inv', 'borrowed', 'pending', 'asked', 'asked_carry')
 
     def __init__(self, len_, cap, name):
         self.len = len_
@@ -94,6 +94,8 @@ class MapState:
         self.examined = None      # (key_tag, lo, hi): prefix compared against key_tag, all "no"
         self.phantom = False
         self.entry_inv = True
+        self.asked = None         # ((lo, hi), ...): slots whose element a user callable was already called for
+        self.asked_carry = None   # key tag of an asked element that is being moved (read out, not yet written back)
         self.pending = None       # (idx, scanned key tag): slot covered by len += 1 but not written yet
         self.borrowed = False     # lives behind a reference given to the root (survives the call)
 
